@@ -74,6 +74,9 @@ CLAIMED = {
             "the Drop impls always commit their content; starting a nested @media / at-rule "
             "never takes content out of the parent destination; "
             "one recorded finding (a commit error inside Drop is only printed, so content can be dropped silently)"),
+    "C33": ("E2", "symbolic execution of <Formatted<Rgba> as Display>::fmt (MIR) with the byte triple, style and source format symbolic; bit-vector obligations decided by z3 and cvc5",
+            "bounded model checking (hex / rgb() text scope): for ALL byte triples the three-digit, six-digit and rgb() forms are written with the right digits in red-green-blue order, "
+            "the three-digit form only for multiples of 17; colour names, rgba()/hsl() text and number formatting are outside"),
     "C36": ("E2", "symbolic execution of handle_item's comment arm and of the @use/@forward module initialiser closures (MIR), obligations decided by z3 and cvc5",
             "bounded model checking (dispatch scope): which loud comments reach the output in which style, that the emitted text is the evaluated comment, and that a "
             "used module is evaluated with the using compilation's format; one recorded finding (compressed style drops /*! comments too); parsing and re-indentation are outside"),
@@ -97,7 +100,6 @@ NOT_APPLICABLE = {
     "C25": "selector parser (nom) and printer (core::fmt)",
     "C27": "CssString::unquote/Display and the parser's escape handling rebuild Strings char by char (CBMC: OOM at 18 GB on 3-byte strings)",
     "C30": "decided by the calc grammar in the nom parser",
-    "C33": "Formatted<Rgba>/<Hsla> Display impls: core::fmt (see C10)",
     "C34": "equality of two dispatch tables built at LazyLock init (BTreeMap, parser for defaults)",
     "C35": "metamorphic relation between two parses of rewritten sources: parser",
     "C38": "agreement of whole-compilation entry points",
